@@ -12,16 +12,20 @@ from vlib import common as C
 ID = 'C03'
 READY = True
 EXHAUSTIVE = True
-LEVEL_TEXT = ('Partial (all clauses except the divergence theorem are theorems). Proved in Coq: (1) every tabulated triangle rule, re-extracted from the '
-              'decimal source text on every run, is exact to 2e-15 on all monomials up to the degree it is selected for (d = 1..10), weights > 0, points in the '
-              'closed reference triangle; (2) soundness of the certificate checkers that are run by vm_compute on the exact rational value of every runtime '
-              'table (1-D Gauss rules d = 0..25 to 1e-13, binary64 triangle rules to 1e-14, 2-D and 1-D shape tables of orders 1..5 with/without bubble at '
-              'every rule: values and gradients reproduce every monomial of degree <= order to 1e-11, face-node layout, 1-D node sets) -- exhaustive over the '
-              'configuration set; (3) lifting over R to every non-degenerate affine element and every mesh with explicit tolerance propagation: partition of '
-              'unity, zero gradient sum, exact interpolation and exact mapped gradients of polynomial fields of degree <= order (affine closure + normal '
-              'form), volumes sum to signed area / total area of a counter-clockwise mesh, quadrature exactness by the affine change of variables with the '
-              'reference monomial formula, axisymmetric mode (exact-data version). Not proved, tested on the implementation only: divergence theorem on the '
-              'boundary; identification of the monomial formula with the Riemann integral; tolerance version of the axisymmetric clause.')
+LEVEL_TEXT = ('Every clause is a Coq theorem about the model; two links of the divergence clause to the implementation\'s numbers are tested only (stated below). '
+              'Proved: (1) every tabulated triangle rule, re-extracted from the decimal source text on every run, is exact to 2e-15 on all monomials up to the '
+              'degree it is selected for (d = 1..10), weights > 0, points in the closed reference triangle; (2) soundness of the certificate checkers run by '
+              'vm_compute on the exact rational value of every runtime table (1-D Gauss rules d = 0..25 to 1e-13, binary64 triangle rules to 1e-14, 2-D and 1-D '
+              'shape tables of orders 1..5 with/without bubble at every rule: values and gradients reproduce every monomial of degree <= order to 1e-11, '
+              'face-node layout against the 1-D element, 1-D node sets 0/1-anchored, increasing, symmetric) -- exhaustive over the configuration set; (3) lifting '
+              'over R to every non-degenerate affine element and every mesh with explicit tolerance propagation: partition of unity, zero gradient sum, exact '
+              'interpolation and exact mapped gradients of polynomial fields of degree <= order (affine closure + normal form; the gradient components are proved '
+              'to be the partial derivatives), volumes sum to signed area / total area of a counter-clockwise mesh, quadrature exactness against the Riemann '
+              'integral (the monomial formula i!j!/(i+j+2)! is proved to be the iterated integral over the reference triangle; change of variables by the affine '
+              'map), axisymmetric mode with 2 pi r spending one degree (tolerance and exact versions); (4) divergence theorem for polynomial vector fields on every '
+              'affine triangle (Green on the reference triangle + Piola pull-back) and on a mesh by cancellation of interior-edge fluxes, and exactness of the edge '
+              'quadrature sum at exact edge points. Tested only (L2): propagation of the 1e-11 error of the interpolated edge points through F in the edge sums; '
+              'the edge-list structure premise of the mesh divergence theorem (owned by C13).')
 TECHNIQUE = ('Coq proof: vm_compute-checked exactness of the quadrature tables regenerated from the source text; proved certificate '
              'checkers run on the exact rational value of every runtime table (complete configuration set); lifting theorems over R '
              'for every affine element; PrimFloat correspondence for the geometric kernels')
@@ -36,10 +40,10 @@ TRUSTED = ['Coq 8.16.1 kernel + vm_compute (no native_compute)',
            'cross-product terms for volumes; 64 u cond(J) |J^-1| |dN| for the LU solve vs the closed form; 16 ulp for edge vectors) and by the extracted index structure (gen/Tab_FsGeom.v)',
            'theorems are over exact reals with the certified table tolerances as explicit hypotheses; binary64 rounding inside FunctionSpace is covered only by L2 (tolerance 2e-10 relative to the theorem\'s own error scale)',
            'element nodes are the affine images of the reference nodes (owned by C13; checked per mesh in L2 as a guard)']
-ASSUMPTIONS = ['exact real arithmetic in the lifting theorems; table errors enter as the hypotheses RefIds/TriQuadExact with the certified eps',
-               'the integral of a polynomial over a triangle is defined by the affine change of variables and the reference monomial formula i! j!/(i+j+2)!',
-               'axisymmetric theorem is stated for exact reference data (eps = 0)',
-               'divergence theorem: not proved, L2 only']
+ASSUMPTIONS = ['exact real arithmetic in the lifting theorems; table errors enter as the hypotheses RefIds/TriQuadExact/Gauss1dExact with the certified eps',
+               'the integral over a physical triangle is jac times the Riemann integral over the reference triangle of the pulled-back integrand (affine change of variables taken as definition; signed with the vertex orientation)',
+               'edge quadrature theorem is stated at the exact edge points A + s_q t (the certified 1-D shape tables put the interpolated points within 1e-11 relative of them)',
+               'mesh divergence theorem assumes the directed element edges are the boundary edges plus interior edges once in each direction (C13)']
 RULE = ('certificates: the complete set {order 1..5} x {bubble on/off} x {2-D degree 1..10}, {order 1..5} x {1-D degree 0..25}, all 1-D and 2-D rules, obtained by '
         'calling the implementation\'s constructors; one configuration = one distinct item. L2: seeded random Delaunay / graded / rotated / anisotropic / '
         'structured triangulations with random cyclic vertex rotation per element, orders and bubble cycling through all combinations, random rule degrees, '
@@ -88,7 +92,7 @@ def digest(*arrays):
 
 
 CERT_HEAD = ('From Coq Require Import ZArith List Lia.\nImport ListNotations.\n'
-             'From OV.model Require Import M_C03.\nFrom OV.proofs Require Import L_C03sn L_C03cert.\n'
+             'From OV.model Require Import M_C03.\nFrom OV.proofs Require Import L_C03sn L_C03cert L_C03lift.\n'
              'Local Open Scope Z_scope.\nLemma two_le_two : 2 <= 2. Proof. lia. Qed.\n')
 
 
@@ -185,7 +189,10 @@ def cert_files(T):
                     lab = '%d_%d' % (k, c)
                     txt = ('Definition q_%s : list qrec := [%s].\n' % (lab, ';\n  '.join(rs))
                            + 'Example sh_%s : shapes_ok 2 %d nodes q_%s %d %d = true.\n%s\n' % ((lab, p, lab) + TOL_SHAPE + (QED,))
-                           + 'Definition sh_%s_meaning := shapes_ok_sound 2 two_le_two %d nodes q_%s %d %d eq_refl sh_%s.' % ((lab, p, lab) + TOL_SHAPE + (lab,)))
+                           + 'Definition sh_%s_meaning := shapes_ok_sound 2 two_le_two %d nodes q_%s %d %d eq_refl sh_%s.\n' % ((lab, p, lab) + TOL_SHAPE + (lab,))
+                           # the certified identities are exactly the hypothesis of the lifting theorems: instantiate one for every element
+                           + 'Definition sh_%s_lifted := fun v0 v1 v2 q N Gx Gy (H : In (q, (N, (Gx, Gy))) q_%s) =>\n'
+                             '  lift_partition_of_unity v0 v1 v2 _ _ _ _ _ _ _ (sh_%s_meaning q N Gx Gy H).' % (lab, lab, lab))
                     chunks.append((lab, txt, len(rs) * unit))
                     labels.append(lab)
                 seen[key] = labels
@@ -438,10 +445,12 @@ def l2_case(case):
         bad.append('mapped shape gradients do not sum to zero: scaled error %.3g' % max(ex_, ey_))
     # (b, c) interpolation and gradients of monomial fields of degree <= p
     monos = [(i, j) for i in range(p + 1) for j in range(p + 1 - i)]
-    for (i, j) in monos:
-        U = X[:, 0] ** i * X[:, 1] ** j
-        Uq = onp.asarray(FunctionSpace.interpolate_to_points(fs, jnp.asarray(U)))
-        Gq = onp.asarray(FunctionSpace.compute_field_gradient(fs, jnp.asarray(U)))
+    Uall = onp.stack([X[:, 0] ** i * X[:, 1] ** j for (i, j) in monos], axis=1)          # one nodal field per monomial
+    Uq_all = onp.asarray(FunctionSpace.interpolate_to_points(fs, jnp.asarray(Uall)))        # [ne, nq, nmono]
+    Gq_all = onp.asarray(FunctionSpace.compute_field_gradient(fs, jnp.asarray(Uall)))       # [ne, nq, nmono, 2]
+    for m, (i, j) in enumerate(monos):
+        Uq = Uq_all[:, :, m]
+        Gq = Gq_all[:, :, m, :]
         C = (cx ** i * cy ** j)[:, None]
         f = Xq[:, :, 0] ** i * Xq[:, :, 1] ** j
         fxv = i * Xq[:, :, 0] ** max(i - 1, 0) * Xq[:, :, 1] ** j if i > 0 else 0 * f
@@ -739,7 +748,7 @@ def table_identities_exact(T, limit=5):
 
 def l2_cases(ctx, stream='l2', n=None):
     r = ctx.rng(stream)
-    n = n or ctx.n(14, 120)
+    n = n or ctx.n(10, 120)
     combos = [(p, b) for p in ORDERS for b in (False, True) if not (p == 1 and b)]
     r.shuffle(combos)
     cases = []
@@ -797,6 +806,7 @@ def correspondence(ctx, model_ok):
                                    seconds=round(time.time() - t0, 1), bytes=sum(r_['bytes'] for r_ in res),
                                    tolerances=dict(shapes='1e-11', tri_runtime='1e-14', gauss1d='1e-13', faces='1e-13', nodes1d_symmetry='1e-13'))
     ctx.cov['certificate_map_sample'] = dict(list(sorted(cfgmap.items()))[:6])
+    ctx.cov['certificate_obligations'] = sum(t.count('Qed.') for _, t, _ in files)
     ctx.count('certified_configurations', len(cfgmap))
     ctx.count('distinct_nontrivial', len(cfgmap))
     ctx.count('evaluations', len(cfgmap))
